@@ -31,6 +31,9 @@ type vShimControl struct {
 	// at most 1.5 s, then fail), writes fail at once
 	outage    bool
 	outageEnd chan struct{}
+	// outageFast: the unreachable primary refuses at once (connection refused /
+	// pool closed) instead of letting reads hang
+	outageFast bool
 	// outageWrites: write attempts (begin / exec / commit) made while unreachable
 	outageWrites int
 }
@@ -82,8 +85,11 @@ func (c *vShimControl) step(what string) bool {
 		g(what)
 	}
 	c.Lock()
-	out, end := c.outage, c.outageEnd
+	out, end, fast := c.outage, c.outageEnd, c.outageFast
 	c.Unlock()
+	if out && fast && !(what == "begin" || what == "commit" || strings.HasPrefix(what, "exec:")) {
+		return true
+	}
 	if out {
 		if what == "begin" || what == "commit" || strings.HasPrefix(what, "exec:") {
 			c.Lock()
@@ -232,6 +238,11 @@ func (w *vWorld) vShimPrimary() *vShimControl {
 	db, ctl := vOpenShim(filepath.Join(w.dir, profileDBFilename))
 	w.rawPrimary = raw
 	w.state.db = db
+	w.outageFast = func(fast bool) {
+		ctl.Lock()
+		ctl.outageFast = fast
+		ctl.Unlock()
+	}
 	w.outageHook = func(on bool) {
 		ctl.setOutage(on)
 		if on {
@@ -242,6 +253,16 @@ func (w *vWorld) vShimPrimary() *vShimControl {
 		}
 	}
 	return ctl
+}
+
+// vPrimaryOutageFlavour selects how the unreachable primary behaves from the
+// next outage on: fast = every operation is refused at once, otherwise reads
+// hang and writes fail.
+func (w *vWorld) vPrimaryOutageFlavour(fast bool) {
+	if w.outageFast == nil {
+		panic("verif: world has no shimmed primary")
+	}
+	w.outageFast(fast)
 }
 
 // vPrimaryOutage makes the primary unreachable / reachable again.  Unlike the
